@@ -84,6 +84,7 @@ import XotModel.Lemmas.LexCanon
 import XotModel.Model.ParseString
 import XotModel.Lemmas.SpanSliceNode
 import XotModel.Lemmas.SpanSliceDelims
+import XotModel.Lemmas.SpanDelimWitness
 import XotModel.Lemmas.SpanDescErr
 import XotModel.Lemmas.SpanDescWitness
 import XotModel.Lemmas.ColonWitness
@@ -692,6 +693,17 @@ example : sliceBytes (renderTokens sliceWitness) 1 4 = some ['p', ':', 'a'] ∧
     cdataOpenBefore (renderTokens sliceWitness) 29 = false ∧
     decodeRun false ['t', '&', 'l', 't', ';', '<', '!', '[', 'C', 'D', 'A', 'T', 'A', '[', 'c'] = some ['t', '<', 'c'] := by
   decide +kernel
+
+/-- White space inside the end tag: `<a></a ␣⏎>` is accepted (tokenizer run step by step in the kernel,
+    Lemmas/SpanDelimWitness.lean); `ElementEnd` = 3..9 slices to `</` ++ `a` (the `ElementStart` slice 1..2)
+    ++ space, line feed ++ `>`. -/
+example : wsEndTagCheck (parseString .document Env.fresh wsEndTagText) = true := by
+  simp only [parseString, lexMode, lex_wsEndTag]
+  rw [build_eq_buildE]
+  decide +kernel
+example : sliceBytes wsEndTagText 1 2 = some ['a'] ∧
+    sliceBytes wsEndTagText 3 9 = some ('<' :: '/' :: (['a'] ++ [' ', '\n'] ++ ['>'])) ∧
+    (∀ c ∈ [' ', '\n'], isXmlSpace c = true) := by decide +kernel
 
 /-- … and on `<a><![CDATA[c]]>t</a>`: the text node `ct` has the span 12..17 (`c]]>t`), the nine bytes in front of
     it are `<![CDATA[`, and decoding the slice from inside a section gives `ct`. -/
